@@ -23,9 +23,6 @@ def run_harness(binp, wd, name, args, env=None):
     return load(out)
 
 
-def known_class(r):
-    """The open known finding of C11 (known_findings.json) is matched by the case shape only."""
-    return None
 
 
 def run(tier, replay):
